@@ -2,6 +2,8 @@ package hashgraph
 
 import (
 	"fmt"
+
+	"github.com/mosaicnetworks/babble/src/peers"
 )
 
 func verifBytesEq(a, b []byte) bool {
@@ -28,6 +30,32 @@ func VerifHarness_C15_O1() {
 	d := verifBuildDAG(1, 1)
 	vn := d.vn
 	h := vn.h
+	if verifChoice("parentsAreFrameEvents", 2) == 1 {
+		// the node was reset from a frame: the parents are held as frame events
+		// (decoded from JSON: public fields only, private wire fields unset)
+		vn = verifNewNet(2, 100)
+		h = vn.h
+		for c := 1; c >= 0; c-- {
+			o := d.chains[c][0]
+			core := &Event{Body: EventBody{
+				Transactions: o.Body.Transactions,
+				Parents:      append([]string{}, o.Body.Parents...),
+				Creator:      o.Body.Creator,
+				Index:        o.Body.Index,
+				Timestamp:    o.Body.Timestamp,
+			}, Signature: o.Signature}
+			if c == 0 {
+				core.Body.Parents[1] = "" // A0's other-parent B0 is below the frame
+			}
+			if err := h.InsertFrameEvent(&FrameEvent{Core: core, Round: 0, LamportTimestamp: 0, Witness: true}); err != nil {
+				panic(err)
+			}
+			if core.Hex() != o.Hex() && c == 1 {
+				panic("frame event copy has another hash")
+			}
+			d.chains[c][0] = core
+		}
+	}
 	parents := []string{"", ""}
 	if verifChoice("selfParent", 2) == 1 {
 		parents[0] = d.chains[0][0].Hex()
@@ -175,5 +203,68 @@ func VerifHarness_C15_O3() {
 	verifAssert("sorting-does-not-reorder-the-frame-itself", same)
 	h2, _ := frame.Hash()
 	verifAssert("frame-hash-unchanged-by-sorting", string(h1) == string(h2))
+	verifReach("end")
+}
+
+// C15/O4 — JSON / database forms of membership payloads.  An event, a block and
+// a frame carry a peer (inside an internal transaction, resp. in the frame's
+// validator list) whose moniker and address are SYMBOLIC strings (any bytes,
+// including white space and control characters).  Through the database form of
+// the event (MarshalDB / UnmarshalDB) and the transport form of the block and
+// the frame (Marshal / Unmarshal) the peer comes back field by field identical,
+// and event hash, block body hash and frame hash are unchanged.  The JSON codec
+// itself is modelled as a faithful round trip of exported fields (A2), but any
+// UnmarshalJSON a repository type defines is the real code and is executed.
+func VerifHarness_C15_O4() {
+	vn := verifNewNet(2, 100)
+	p := *verifPeerN(1)
+	p.Moniker = verifNondetString("moniker", 2)
+	p.NetAddr = verifNondetString("netAddr", 2)
+	itx := NewInternalTransaction(PEER_ADD, p)
+	itx.Signature = "a|b"
+	samePeer := func(q peers.Peer) bool {
+		return q.Moniker == p.Moniker && q.NetAddr == p.NetAddr && q.PubKeyHex == p.PubKeyHex
+	}
+	switch verifChoice("form", 3) {
+	case 0:
+		ev := NewEvent([][]byte{{1}}, []InternalTransaction{itx}, nil, []string{"", ""}, vn.pubs[0], 0)
+		ev.Signature = "r|s"
+		hex := ev.Hex()
+		data, err := ev.MarshalDB()
+		verifAssert("event-marshal-ok", err == nil)
+		back := &Event{}
+		err = back.UnmarshalDB(data)
+		verifAssert("event-unmarshal-ok", err == nil)
+		ok := len(back.Body.InternalTransactions) == 1
+		verifAssert("event-database-form-keeps-the-membership-payload", ok && samePeer(back.Body.InternalTransactions[0].Body.Peer) && back.Body.InternalTransactions[0].Signature == "a|b")
+		back.hash, back.hex = nil, ""
+		verifAssert("event-hash-survives-the-database-form", back.Hex() == hex)
+	case 1:
+		block := NewBlock(0, 1, []byte("framehash"), vn.set.Peers, [][]byte{{1}}, []InternalTransaction{itx}, 7)
+		h1, err := block.Body.Hash()
+		verifAssert("block-hash-ok", err == nil)
+		data, err := block.Marshal()
+		verifAssert("block-marshal-ok", err == nil)
+		nb := new(Block)
+		err = nb.Unmarshal(data)
+		verifAssert("block-unmarshal-ok", err == nil)
+		ok := len(nb.Body.InternalTransactions) == 1
+		verifAssert("block-transport-form-keeps-the-membership-payload", ok && samePeer(nb.Body.InternalTransactions[0].Body.Peer))
+		h2, _ := nb.Body.Hash()
+		verifAssert("block-body-hash-survives-the-transport-form", string(h1) == string(h2))
+	default:
+		frame := &Frame{Round: 2, Peers: []*peers.Peer{vn.set.Peers[0], &p}, Roots: map[string]*Root{}, Events: []*FrameEvent{}, Timestamp: 5}
+		h1, err := frame.Hash()
+		verifAssert("frame-hash-ok", err == nil)
+		data, err := frame.Marshal()
+		verifAssert("frame-marshal-ok", err == nil)
+		nf := new(Frame)
+		err = nf.Unmarshal(data)
+		verifAssert("frame-unmarshal-ok", err == nil)
+		ok := len(nf.Peers) == 2 && nf.Peers[1] != nil
+		verifAssert("frame-transport-form-keeps-the-validator-list", ok && samePeer(*nf.Peers[1]))
+		h2, _ := nf.Hash()
+		verifAssert("frame-hash-survives-the-transport-form", string(h1) == string(h2))
+	}
 	verifReach("end")
 }
